@@ -11,6 +11,7 @@ import warnings
 from fractions import Fraction
 
 from harness.lib import boot
+from harness.lib.coqrun import RUN_ROOT
 from harness.lib.coqrun import qlit, zlit, listlit, parse_eval_blocks, COQ, BUILD, LOGICAL
 from harness.lib.ctx import guarded
 
@@ -255,7 +256,7 @@ def run_coq_files(tag, files, jobs=3, timeout=600):
     import os
     import subprocess
     import time
-    rundir = os.path.join(BUILD, "run", tag)
+    rundir = os.path.join(RUN_ROOT, tag)
     os.makedirs(rundir, exist_ok=True)
     for fn in os.listdir(rundir):
         try:
